@@ -34,6 +34,7 @@ using namespace FIX8;
 
 static const F8MetaCntx *g_ctx = nullptr;
 static Message *g_msg = nullptr, *g_dec = nullptr;
+static bool g_from_dec = false;   // the current message is one the factory decoded (usedec): events are named ...Dec
 static std::string g_bytes;
 
 // ---------------------------------------------------------------------------------------------
@@ -102,6 +103,7 @@ static void drop()
 {
 	delete g_msg; g_msg = nullptr;
 	delete g_dec; g_dec = nullptr;
+	g_from_dec = false;
 	g_bytes.clear();
 }
 
@@ -238,9 +240,14 @@ int main(int argc, char **argv)
 				ev.b("ok", true).s("hex", pj::hex(out));
 			});
 		}
+		else if (c == "usedec")   // from here on clone / copy / move work on the message the factory decoded
+		{
+			if (g_dec) { delete g_msg; g_msg = g_dec; g_dec = nullptr; g_from_dec = true; }
+			pj::Ev("UseDec").b("ok", g_from_dec).emit();
+		}
 		else if (c == "clone")
 		{
-			guarded("Clone", [&](pj::Ev& ev) {
+			guarded(g_from_dec ? "CloneDec" : "Clone", [&](pj::Ev& ev) {
 				if (!g_msg) { ev.b("ok", false); return; }
 				std::unique_ptr<Message> cl(g_msg->clone());
 				ev.raw("tree", tree_of(cl.get()));
@@ -252,7 +259,7 @@ int main(int argc, char **argv)
 		else if (c == "copy")
 		{
 			// the way Message::clone uses it: body, header and trailer each into the empty counterpart
-			guarded("CopyLegal", [&](pj::Ev& ev) {
+			guarded(g_from_dec ? "CopyLegalDec" : "CopyLegal", [&](pj::Ev& ev) {
 				if (!g_msg) { ev.b("ok", false); return; }
 				std::unique_ptr<Message> to(g_ctx->create_msg(g_msg->get_msgtype().c_str(), true));
 				unsigned n(static_cast<const MessageBase *>(g_msg)->copy_legal(to.get()));
@@ -263,7 +270,7 @@ int main(int argc, char **argv)
 		}
 		else if (c == "move")
 		{
-			guarded("MoveLegal", [&](pj::Ev& ev) {
+			guarded(g_from_dec ? "MoveLegalDec" : "MoveLegal", [&](pj::Ev& ev) {
 				if (!g_msg) { ev.b("ok", false); return; }
 				std::unique_ptr<Message> to(g_ctx->create_msg(g_msg->get_msgtype().c_str(), true));
 				unsigned n(static_cast<MessageBase *>(g_msg)->move_legal(to.get()));
